@@ -30,6 +30,7 @@ def dg(v):
 
 def solo(desc, prune):
     d = copy.deepcopy(desc)
+    d.pop("prune_states", None)        # "this game alone in this mode": the mode is what we ask for
     try:
         sg = tad.StochasticGame(prune_states=prune, **d)
         entry = {"n_states": sg.num_states, "n_transitions": sg.count_transitions()}
